@@ -154,6 +154,23 @@ pub fn run(a: &Args) {
                 (Err(_), _) => {},
             }
         } }
+        // ... and the other way round: a parsed version written into an IS_VER either is refused (its printed form does not fit the 8 bytes) or
+        // reads back as an equal version - including printed forms of 9 and more bytes, with and without a revision, letters other than A
+        let mut long: Vec<String> = texts.clone();
+        for t in ["0.123456B", "0.123456A", "0.123456Z9", "1234.567B", "0.12345B0", "0.12345B12", "12.34567C", "0.1234567", "100000.5D"] { long.push(t.to_string()); }
+        for t in &long { if let Ok(v) = GameVersion::from_str(t) { for compressed in [true, false] {
+            st.evaluations += 1; st.bump("versions written into IS_VER");
+            let p = insim::Packet::Ver(insim::insim::Ver { reqi: insim::identifiers::RequestId(1), version: v.clone(), product: "S3".into(), insimver: 9 });
+            let id = format!("verwrite {} {}", if compressed { "C" } else { "U" }, t);
+            match crate::wire::encode_p(compressed, &p) {
+                crate::wire::Enc::Ok(b) => match decode_buf(compressed, &b) {
+                    Dec::Got(insim::Packet::Ver(v2), _) => if v2.version != v { st.fail(format!("[C16] the version parsed from {t:?} ({:?}) is written into IS_VER as {:?} and reads back as {:?}", v, String::from_utf8_lossy(&b[4..12.min(b.len())]), v2.version), id); },
+                    d => st.fail(format!("[C16] the IS_VER written for the version parsed from {t:?} does not decode: {}", crate::wire::cls_string(&d)), id),
+                },
+                crate::wire::Enc::Err => {},
+                crate::wire::Enc::Panic => st.fail(format!("[C16] writing the version parsed from {t:?} into IS_VER panics"), id),
+            }
+        } } }
         st.notes.push(format!("IS_VER wire forms: {} texts, {nfull} of them filling all 8 bytes", texts.len()));
     }
     st.rule = "real GameVersion FromStr / Display / Ord under catch_unwind: exhaustive over a class alphabet up to a bounded length, known versions and edge texts, random strings; oracle per string: printed form of a finite parsed version re-parses equal, letter upper-case ASCII, case-flipped text parses identically; order axioms + lexicographic specification on random pairs / triples of parsed versions; the std oracles of the Coq model (is_numeric on ASCII, f32 Display shape / round trip / order = bit order, usize round trip) on sampled (quick) or all (thorough) non-negative f32; non-trivial = parses successfully".into();
